@@ -282,6 +282,9 @@ class DerivativeGrid(Family):
                 continue
             d, magd = unbits(models[2 * i][0][0]), unbits(models[2 * i][0][1])
             magg = unbits(models[2 * i + 1][0][1])
+            # a switching point of the generated loss (|·| / sign at 0, a comparison at equality): the symbolic
+            # derivative need not be the derivative there; one-sided difference quotients decide instead
+            on_kink = len(cells[i][0]) > 2 and bool(cells[i][0][2])
             fn, gr, lb = st["ok"]
 
             def run():
@@ -304,7 +307,16 @@ class DerivativeGrid(Family):
                         fd_tol = 1e-6 * (1 + abs(g)) + 1e-14 * max(abs(v) for v in vals) / h
                     else:
                         fd_tol = None
-                return {"g": g, "f": f0, "fd": fd, "fd_tol": fd_tol, "lb": float(lb)}
+                    sides = []
+                    if on_kink:
+                        hk = 1e-4 * max(1.0, abs(m))
+                        if lower is None or m - lower > 2 * hk:
+                            vl = [f0, f(m - hk), f(m - 2 * hk)]
+                            sides.append(("left", (3 * vl[0] - 4 * vl[1] + vl[2]) / (2 * hk), vl))
+                        vr = [f0, f(m + hk), f(m + 2 * hk)]
+                        sides.append(("right", (-3 * vr[0] + 4 * vr[1] - vr[2]) / (2 * hk), vr))
+                        sides = [(nm, q, 1e-5 * (1 + abs(g)) + 1e-13 * max(abs(v) for v in vs) / hk) for nm, q, vs in sides]
+                return {"g": g, "f": f0, "fd": fd, "fd_tol": fd_tol, "lb": float(lb), "sides": sides}
 
             impl = call(run)
             if "ok" not in impl:
@@ -331,7 +343,19 @@ class DerivativeGrid(Family):
             if obj == "HUBER":
                 kind += ":kink" if abs(x - m) == p else (":in" if abs(x - m) < p else ":out")
             tags.append(kind)
-            if not same_double(g, d, tol):
+            bad_side = next(((nm, q) for nm, q, t in r["sides"] if not same_double(g, q, t)), None)
+            if on_kink:
+                tags.append("switching-point")
+            if on_kink and bad_side is not None:
+                out.append(Verdict("violation",
+                                   f"{obj}: gradient handle {gn} returns {g!r} but the {bad_side[0]} difference quotient of the "
+                                   f"Python loss {ln} is {bad_side[1]!r} at the switching point data={x} param={p} model={m}",
+                                   repr(g), repr(d), repr(bad_side[1]), tags))
+            elif on_kink and not same_double(g, d, tol):
+                # the piecewise symbolic derivative is not the derivative at a switching point; both one-sided
+                # difference quotients agree with the gradient handle
+                out.append(Verdict("ok", "", repr(g), repr(d), repr([q for _n, q, _t in r["sides"]]), tags + ["D-skipped"], True))
+            elif not same_double(g, d, tol):
                 out.append(Verdict("violation",
                                    f"{obj}: gradient handle {gn} returns {g!r} but d/dm of {ln} is "
                                    f"{d!r} at data={x} param={p} model={m}"
@@ -957,7 +981,7 @@ class GcpOptMask(Family):
     replaced by a stand-in that evaluates the objective and gradient once at the initial guess; what it is
     handed must be the weighted objective and its exact partial derivatives, whatever the layout of the mask."""
     name = "gcp_opt_mask"
-    theorems = ("C12_objective_sum", "C12_gradient_is_partial_derivative")
+    theorems = ("C12_objective_sum", "C12_gradient_is_partial_derivative", "C12_evaluate_mask")
 
     def gen(self, rng, tier):
         out = []
@@ -1044,6 +1068,15 @@ class GcpOptMask(Family):
                 out.append(Verdict("corr", "gcp_opt changed a signed one-hot initial guess while normalising", impl, mo, None, tags))
                 continue
             spec = jnum(exact_objective(c["K"], c["X"]["shape"], rq["X"]["data"], c["W"]["data"], c["handle"]))
+            if c["wk"] == "mask":
+                # a 0/1 mask (ndarray or tensor): the loss summed over the unmasked entries only (C12_evaluate_mask)
+                f0 = STANDINS[c["handle"]][0]
+                only = sum((f0(Fraction(rq["X"]["data"][idx]), kget(c["K"], i))
+                            for idx, i in enumerate(gen.all_subs(c["X"]["shape"])) if c["W"]["data"][idx] != 0), Fraction(0))
+                if not deep_eq(spec, jnum(only)):
+                    out.append(Verdict("corr", "masked sum and weighted sum of the specification differ", spec, jnum(only), None, tags))
+                    continue
+                tags.append("masked-sum")
             if not deep_eq(r["F"], spec) or not deep_eq(r["final_f"], spec):
                 out.append(Verdict("violation", f"the objective handed to the optimiser, {r['F']}, is not the sum over all "
                                                 f"subscripts i of w[i]*f(x[i], m[i]) = {spec} {where}", impl, mo, spec, tags))
